@@ -826,6 +826,54 @@ var stepDeadline = func() time.Duration {
 	return 120 * time.Second
 }()
 
+// The harness' own starvation detector. A "driver hangs" verdict needs a wait in which the HARNESS
+// was running: on a machine shared with many other jobs (or a paused VM) a wall-clock deadline can
+// expire although the driver under test never had a chance to run. A heartbeat goroutine wakes every
+// 20 ms; the time by which its wake-ups come late is accumulated in lostNanos. A deadline that expires
+// while more than a few seconds were lost that way is extended (bounded), so that a hang is reported
+// only after stepDeadline of time in which this process was actually scheduled.
+var lostNanos atomic.Int64
+
+func init() {
+	go func() {
+		const tick = 20 * time.Millisecond
+		last := time.Now()
+		for {
+			time.Sleep(tick)
+			now := time.Now()
+			if late := now.Sub(last) - 3*tick; late > 0 {
+				lostNanos.Add(int64(late))
+			}
+			last = now
+		}
+	}()
+}
+
+// patient returns a channel that is closed when the step deadline has passed in time during which
+// the harness itself was running, and a function that releases the watcher.
+func patient() (<-chan struct{}, func()) {
+	ch, stop := make(chan struct{}), make(chan struct{})
+	go func() {
+		t := time.NewTimer(stepDeadline)
+		defer t.Stop()
+		for i := 0; ; i++ {
+			l0 := lostNanos.Load()
+			select {
+			case <-stop:
+				return
+			case <-t.C:
+			}
+			if i < 15 && lostNanos.Load()-l0 > int64(stepDeadline/20) {
+				t.Reset(stepDeadline) // the harness was starved meanwhile: that wait does not count
+				continue
+			}
+			close(ch)
+			return
+		}
+	}()
+	return ch, func() { close(stop) }
+}
+
 var errNoTimeoutChannel = fmt.Errorf("the driver's timeout channel was not found (reflect lookup by type): timeouts cannot be injected")
 
 // startEpoch boots a process instance on a copy of the crash image `image` ("" = empty disk) with
@@ -940,12 +988,14 @@ func startEpoch(cfg *Cfg, base, image string, chain, epochNo uint64, failAt int,
 // been processed completely): the sentinel is only taken there, and the state machine wrapper
 // swallows it.
 func (ep *epoch) sync() error {
+	dl, release := patient()
+	defer release()
 	select {
 	case ep.prevCh <- ep.sentinel:
 	case err := <-ep.done:
 		ep.done <- err
 		return fmt.Errorf("driver stopped: %v", err)
-	case <-time.After(stepDeadline):
+	case <-dl:
 		return fmt.Errorf("driver hangs (no select within %s)", stepDeadline)
 	}
 	if ep.side != nil {
@@ -957,14 +1007,14 @@ func (ep *epoch) sync() error {
 		case err := <-ep.done:
 			ep.done <- err
 			return fmt.Errorf("driver stopped: %v", err)
-		case <-time.After(stepDeadline):
+		case <-dl:
 			return fmt.Errorf("driver hangs (no select within %s)", stepDeadline)
 		}
 	}
 	select {
 	case <-ep.sentinelCh:
 		return nil
-	case <-time.After(stepDeadline):
+	case <-dl:
 		return fmt.Errorf("driver hangs after sentinel")
 	}
 }
@@ -974,7 +1024,8 @@ func (ep *epoch) feed(idx int, in Input) error {
 	ep.curInput = idx
 	defer func() { ep.curInput = -1 }()
 	var sent bool
-	dl := time.After(stepDeadline)
+	dl, release := patient()
+	defer release()
 	switch in.K {
 	case "p":
 		if validVal(in.Val) {
@@ -1105,6 +1156,8 @@ func (ep *epoch) stop() { ep.stopVia(false) }
 // stopVia ends the process either by cancelling its context or — the other regular way out of
 // `listen` — by closing a message listener's channel.
 func (ep *epoch) stopVia(closeListener bool) {
+	dl, release := patient()
+	defer release()
 	ep.boundary()
 	if closeListener {
 		switch ep.closeWhich {
@@ -1129,7 +1182,7 @@ func (ep *epoch) stopVia(closeListener bool) {
 		if err != nil {
 			ep.errs = append(ep.errs, "run: "+err.Error())
 		}
-	case <-time.After(stepDeadline):
+	case <-dl:
 		ep.errs = append(ep.errs, "run does not return after cancel")
 	}
 	if closeListener && ep.cancel != nil {
